@@ -156,6 +156,31 @@ def _chunk(args):
                     sd = sp.oracle.unit_size(d.unit)
                     if not close(mag(d.magnitude) * sd, mag(m) / (vp * su), tol):
                         bad("quotient_wrong", key, f"({m} 1) / ({pu}) = {d}: SI value {float(mag(d.magnitude) * sd)!r}, expected {float(mag(m) / (vp * su))!r}", rp)
+                # the prefix on its own, as a prefixed One, used as an operand: p*One is the
+                # scalar value(p), and a ratio that cancels completely leaves exactly that
+                law("prefixed one")
+                pone = p * m_.One
+                ratio = pu / u
+                if tol == SAME and u.prefix.base in (0, p.base):
+                    if ratio is not pone:
+                        bad("prefixed_one_wrong", key, f"({pn}*{un})/{un} = {ratio!r} is not {pn}*One", rp)
+                    if (u * pone) is not pu or (pone * u) is not pu or (ratio * u) is not pu:
+                        bad("prefixed_one_wrong", key, f"{un} * ({pn}*One) = {(u * pone)!r}, ({pn}*One) * {un} = {(pone * u)!r}; expected {pu!r}", rp)
+                    if p.base and (pu / pone) is not u:
+                        bad("prefixed_one_wrong", key, f"({pn}*{un}) / ({pn}*One) = {(pu / pone)!r}; expected {u!r}", rp)
+                for m in MAGS[:3]:
+                    for name, got_q, want_si in (
+                        ("q * (p*One)", (m * u) * (1 * pone), mag(m) * su * vp),
+                        ("q / (p*One)", (m * u) / (1 * pone), mag(m) * su / vp),
+                        ("q * unit p*One", (m * u) * pone, mag(m) * su * vp),
+                        ("q / unit p*One", (m * u) / pone, mag(m) * su / vp),
+                        ("(p*One) / q", (1 * pone) / (m * u), vp / (mag(m) * su)),
+                        ("q / (ratio)", (m * u) / (1 * ratio), mag(m) * su / vp),
+                    ):
+                        law("prefixed one")
+                        got_si = mag(got_q.magnitude) * sp.oracle.unit_size(got_q.unit)
+                        if not close(got_si, want_si, tol):
+                            bad("prefixed_one_wrong", key, f"{name} with q = {m} {un}, p = {pn}: {got_q}: SI value {float(got_si)!r}, expected {float(want_si)!r}", rp)
                 qy = pu.quantify()
                 law("quantify")
                 if qy.unit.prefix.base != 0 or not close(mag(qy.magnitude) * sp.oracle.unit_size(qy.unit), vp * su, tol):
